@@ -372,5 +372,142 @@ theorem cell_body_from_source :
        "if cubeCornersExistence[7]", "for i := 0; triangulation[lookupIndex][i] != -1; i += 3"] :=
   ⟨rfl, rfl, rfl⟩
 
+/-! ## 5. Block level: canvas filling (`AddField`), block enumeration, the final weld -/
+
+theorem mem_loopVals_aux (s b X : Int) : X ∈ Src.loopVals s "<" b 1 ↔ s ≤ X ∧ X < b := by
+  have e : Src.loopVals s "<" b 1 = (List.range (b - s).toNat).map fun (k : Nat) => s + Int.ofNat k := by
+    simp [Src.loopVals]
+  rw [e, List.mem_map]
+  constructor
+  · rintro ⟨k, hk, rfl⟩
+    rw [List.mem_range] at hk
+    simp only [Int.ofNat_eq_natCast]; omega
+  · rintro ⟨h1, h2⟩
+    exact ⟨(X - s).toNat, List.mem_range.mpr (by omega), by simp only [Int.ofNat_eq_natCast]; omega⟩
+
+/-- `fieldBounds`: sample range per axis `[⌊min·cubesPerUnit⌋ − 1, ⌈max·cubesPerUnit⌉ + 1)` — the one-cell padding that
+    `addField_allocates_neighbourhood` / `MarchHyp.padded` rest on; `canvasPosToChunkPos` = `⌊x / marchingSectionSize⌋` per axis
+    (model `chunkOf`); `chunkSectionsInRange` = all chunks from the chunk of `min` to the chunk of `max` INCLUSIVE (`< range+1`) -/
+theorem field_bounds_from_source :
+    Gen.MarchLoops.src_fieldBounds =
+      ["min := f.Domain.Min()",
+       "max := f.Domain.Max()",
+       "minCanvas := modeling.VectorInt{ X: int(math.Floor(min.X()*d.cubesPerUnit)) - 1, Y: int(math.Floor(min.Y()*d.cubesPerUnit)) - 1, Z: int(math.Floor(min.Z()*d.cubesPerUnit)) - 1, }",
+       "maxCanvas := modeling.VectorInt{ X: int(math.Ceil(max.X()*d.cubesPerUnit)) + 1, Y: int(math.Ceil(max.Y()*d.cubesPerUnit)) + 1, Z: int(math.Ceil(max.Z()*d.cubesPerUnit)) + 1, }",
+       "return minCanvas, maxCanvas"] ∧
+    Gen.MarchLoops.src_canvasPosToChunkPos =
+      ["return modeling.VectorInt{ X: int(math.Floor(float64(x) / marchingSectionSize)), Y: int(math.Floor(float64(y) / marchingSectionSize)), Z: int(math.Floor(float64(z) / marchingSectionSize)), }"] ∧
+    Gen.MarchLoops.src_chunkSectionsInRange =
+      ["minChunkPos := d.canvasPosToChunkPos(min.X, min.Y, min.Z)",
+       "maxChunkPos := d.canvasPosToChunkPos(max.X, max.Y, max.Z)",
+       "if minChunkPos == maxChunkPos",
+       ". return []modeling.VectorInt{minChunkPos}",
+       "chunkRange := maxChunkPos.Sub(minChunkPos)",
+       "allSections := make([]modeling.VectorInt, 0)",
+       "for x := 0; x < chunkRange.X+1; x++",
+       ". for y := 0; y < chunkRange.Y+1; y++",
+       ". . for z := 0; z < chunkRange.Z+1; z++",
+       ". . . allSections = append(allSections, modeling.VectorInt{ X: minChunkPos.X + x, Y: minChunkPos.Y + y, Z: minChunkPos.Z + z, })",
+       "return allSections"] :=
+  ⟨rfl, rfl, rfl⟩
+
+/-- `AddField` / `addFloat1Range` as text: every chunk of `chunkSections` is written (no early-out, no skipped range), the clipped
+    range is `[maxInt(c·S, min), minInt(c·S + S, max))` per axis, each position of it is written once into
+    `index(x − c.X·S, y − c.Y·S, z − c.Z·S)` with `+=`; a missing block is allocated by `chunkIndex_atomic` with `S³` zero samples -/
+theorem add_field_from_source :
+    Gen.MarchLoops.src_AddField =
+      ["min, max := d.fieldBounds(field)",
+       "chunkSections := d.chunkSectionsInRange(min, max)",
+       "for attribute, function := range field.Float1Functions",
+       ". section := d.getSection(attribute, Float1)",
+       ". for _, chunkPos := range chunkSections",
+       ". . canvasSpaceChunkPos := modeling.VectorInt{ X: maxInt(chunkPos.X*marchingSectionSize, min.X), Y: maxInt(chunkPos.Y*marchingSectionSize, min.Y), Z: maxInt(chunkPos.Z*marchingSectionSize, min.Z), }",
+       ". . endPos := modeling.VectorInt{ X: minInt((chunkPos.X*marchingSectionSize)+marchingSectionSize, max.X), Y: minInt((chunkPos.Y*marchingSectionSize)+marchingSectionSize, max.Y), Z: minInt((chunkPos.Z*marchingSectionSize)+marchingSectionSize, max.Z), }",
+       ". . d.addFloat1Range(section, chunkPos, canvasSpaceChunkPos, endPos, function)"] ∧
+    Gen.MarchLoops.src_addFloat1Range =
+      ["if section.dataType != Float1",
+       ". panic(fmt.Errorf(\"cant add float1 to section with type of: %d\", section.dataType))",
+       "index := d.chunkIndex_atomic(section, chunkPos)",
+       "d.chunkMutex.Lock()",
+       "data := d.float1Data[index]",
+       "d.chunkMutex.Unlock()",
+       "for z := min.Z; z < max.Z; z++",
+       ". for y := min.Y; y < max.Y; y++",
+       ". . for x := min.X; x < max.X; x++",
+       ". . . pos := vector3. New(float64(x), float64(y), float64(z)). DivByConstant(d.cubesPerUnit)",
+       ". . . shiftedPos := modeling.VectorInt{ X: x - (chunkPos.X * marchingSectionSize), Y: y - (chunkPos.Y * marchingSectionSize), Z: z - (chunkPos.Z * marchingSectionSize), }",
+       ". . . data[d.index(shiftedPos.X, shiftedPos.Y, shiftedPos.Z)] += function(pos)"] ∧
+    Gen.MarchLoops.src_chunkIndex_atomic =
+      ["d.chunkMutex.Lock()",
+       "defer d.chunkMutex.Unlock()",
+       "chunkIndex, ok := section.positions[vec]",
+       "if !ok",
+       ". switch section.dataType",
+       ". case Float1",
+       ". . chunkIndex = len(d.float1Data)",
+       ". . d.float1Data = append(d.float1Data, make(float1MarchingSection, marchingSectionSizeCubed))",
+       ". case Float2",
+       ". . chunkIndex = len(d.float2Data)",
+       ". . d.float2Data = append(d.float2Data, make(float2MarchingSection, marchingSectionSizeCubed))",
+       ". case Float3",
+       ". . chunkIndex = len(d.float3Data)",
+       ". . d.float3Data = append(d.float3Data, make(float3MarchingSection, marchingSectionSizeCubed))",
+       ". section.positions[vec] = chunkIndex",
+       "return chunkIndex"] :=
+  ⟨rfl, rfl, rfl⟩
+
+/-- the reading of the pinned clipping expressions of `AddField` (one axis, chunk `c`, sample range `[mn, mx)`) -/
+def Src.clipLo (c mn : Int) : Int := max (c * marchingSectionSize) mn
+def Src.clipHi (c mx : Int) : Int := min (c * marchingSectionSize + marchingSectionSize) mx
+def Src.shifted (X c : Int) : Int := X - c * marchingSectionSize
+
+/-- **AddField partition, on the pinned expressions** (one axis): the loop `for x := lo; x < hi; x++` of `addFloat1Range` with the
+    clipped bounds of `AddField` visits a sample position `X ∈ [mn, mx)` in exactly one chunk — `c = ⌊X/S⌋` —, and writes it to the
+    local index `X mod S ∈ [0, S)`; an EMPTY clipped range (chunk of the exclusive bound `mx` when `mx` is a multiple of `S`) is
+    still passed to `addFloat1Range`, which allocates the block (the neighbour block the last cell layer fetches) -/
+theorem addField_partition_from_source (mn mx X : Int) (h1 : mn ≤ X) (h2 : X < mx) :
+    (∀ c, X ∈ Src.loopVals (Src.clipLo c mn) "<" (Src.clipHi c mx) 1 ↔ c = X / marchingSectionSize) ∧
+    Src.shifted X (X / marchingSectionSize) = X % marchingSectionSize ∧
+    0 ≤ X % marchingSectionSize ∧ X % marchingSectionSize < marchingSectionSize := by
+  have hp := addField_axis_partition mn mx X
+  obtain ⟨_, hb, hc⟩ := hp
+  have hb' := hb h1 h2
+  simp only at hb'
+  refine ⟨fun c => ?_, hb'.2.2.1, hb'.2.2.2.1, hb'.2.2.2.2⟩
+  rw [mem_loopVals_aux]
+  constructor
+  · rintro ⟨ha, hb2⟩; exact hc c ha hb2
+  · rintro rfl; exact ⟨hb'.1, hb'.2.1⟩
+
+/-- **Block enumeration and the final weld**: `March` = `MarchOnAttribute(Position, cutoff)`; the section's blocks are marched by
+    `marchFloat1` (`cell_body_from_source`: range over `section.positions`, one `Append` per block, no filter); an empty result is
+    returned as is, otherwise scaled by `1/cubesPerUnit` and welded with `WeldByFloat3Attribute(attribute, 3)` (the attribute
+    marched on, precision 3 = 1e-3); `marchFloat1BlockPosition` has no statement before its cell loops other than the eleven
+    set-up assignments (no early return for a block) -/
+theorem weld_call_from_source :
+    Gen.MarchLoops.src_March =
+      ["return d.MarchOnAttribute(modeling.PositionAttribute, cutoff)"] ∧
+    Gen.MarchLoops.src_MarchOnAttribute =
+      ["for sectionAttribute, section := range d.sections",
+       ". if section.dataType == Float1 && sectionAttribute == attribute",
+       ". . marched := d.marchFloat1(cutoff, sectionAttribute, section)",
+       ". . if marched.PrimitiveCount() == 0",
+       ". . . return marched",
+       ". . return marched. Transform( meshops.ScaleAttribute3DTransformer{ Amount: vector3.One[float64]().DivByConstant(d.cubesPerUnit), }, ). WeldByFloat3Attribute(attribute, 3)",
+       "panic(fmt.Errorf(\"canvas did not contain Float1 attribute %s\", attribute))"] ∧
+    Gen.MarchLoops.blockPrologue =
+      ["cubeDataIndexIncrements := ..",
+       "cubeData := ..",
+       "cubeDataIndexes := ..",
+       "cubeCorners := ..",
+       "cubeCornersExistence := ..",
+       "marchingWorkingData := ..",
+       "blockIndex := ..",
+       "data := ..",
+       "offset := ..",
+       "<cell loops>",
+       "return .."] :=
+  ⟨rfl, rfl, rfl⟩
+
 end C09
 end PolyVerif
